@@ -12,6 +12,8 @@ import (
 	"github.com/valyala/bytebufferpool"
 	"golang.org/x/text/encoding/unicode"
 	"golang.org/x/text/transform"
+
+	"github.com/hujm2023/go-sms-protocol/verifhook"
 )
 
 type FuncWithError func() error
@@ -60,11 +62,14 @@ var ucs2BytesBufferPool = bytebufferpool.Pool{}
 func Utf8ToUcs2Pooled(in string) (s string) {
 	buf := utf16.Encode([]rune(in))
 	octets := ucs2BytesBufferPool.Get()
+	verifhook.Yield("ucs2pool.get")
 	for _, n := range buf {
 		_ = octets.WriteByte(byte(n & 0xFF00 >> 8))
 		_ = octets.WriteByte(byte(n & 0x00FF))
 	}
 	s = octets.String()
+	verifhook.Yield("ucs2pool.put")
+	verifhook.Released(octets.B[:cap(octets.B)])
 	octets.Reset()
 	ucs2BytesBufferPool.Put(octets)
 	return s
